@@ -99,8 +99,10 @@ Outcome RunC01(RunCtx& ctx)
 		ZooGenCfg zg;
 		zg.archive = archive;
 		zg.allowEmpty = !(archive == A_CSV && avoid);     // KF-CSV-EMPTY-TABLE
+		zg.jumboMember = DrawJumbo(s, sim::L_CFG, 6);
 		Zoo z;
 		GenZoo(s, sim::L_DOC, z, zg);
+		if (zg.jumboMember >= 0 && archive != A_CSV) { ctx.count(std::string("jumbo.") + JumboName(zg.jumboMember)); sim::probe("container-above-estimate-cap"); }
 		if (archive == A_CSV && avoid) EnsureCsvRow(z);
 		ctx.note("archive=" + an + " model=zoo out=" + oc.str() + " options: " + OptStr(o));
 		ctx.count("archive." + an);
